@@ -242,9 +242,9 @@ impl<'a> DocGen<'a> {
         let mut a = String::new();
         if self.behave {
             a.push_str(&format!(" event=\"{}\"", *self.p.pick(TRIGGERS)));
-            if self.p.chance(1, 3) {
-                a.push_str(" target=\"#_internal\"");
-            }
+            // always the internal queue: an event sent to the own external queue races with the events
+            // the harness pre-queues, which would make the trace depend on thread timing
+            a.push_str(" target=\"#_internal\"");
             match self.p.below(3) {
                 0 => a.push_str(&format!(" id=\"sid{}\"", self.p.below(5))),
                 _ => {}
